@@ -306,3 +306,98 @@ def step (s : IOState) : List String → IOState × String
   | _ => (s, "bad-op")
 
 end Bandit
+
+/-! ### wiring of the confidence matrix to the CURRENT output layer (C19, size clause)
+
+    `Wire` adds to the bookkeeping state `Agent` the identities the code juggles: `layer` names the output-layer
+    object of the agent's current actor (`a.outNumel` is its parameter count), `exp` / `expN` the object
+    `exp_layer` is bound to and its parameter count (0 = unbound), `hooked` whether `init_params` is registered as
+    mutation hook, `next` the next unused identity.  The ops state what the library is meant to do (and does, see
+    `Proofs/BanditWireGenEq.lean`: the event lists generated from the source run to exactly these). -/
+namespace Bandit
+
+inductive Kind where
+  | none | arch | param | act | rlhp
+deriving Repr, DecidableEq
+
+/-- the kinds whose method hands a (possibly rebuilt) network back to the agent -/
+def Kind.setsNet : Kind → Bool
+  | .arch | .param | .act => true
+  | _ => false
+
+structure Wire where
+  a      : Agent
+  layer  : Nat
+  exp    : Nat
+  expN   : Nat
+  hooked : Bool
+  next   : Nat
+deriving Repr, DecidableEq
+
+/-- `init_params`: `exp_layer` re-bound to the output layer of the current actor, then `numel`, `sigma_inv` -/
+def Wire.initParams (w : Wire) : Wire :=
+  { w with a := w.a.initParams, exp := w.layer, expN := w.a.outNumel }
+
+/-- `mutation_hook()`: every registered hook -/
+def Wire.hook (w : Wire) : Wire := if w.hooked then w.initParams else w
+
+/-- a network whose output layer is object `id` with `n` parameters becomes the agent's actor -/
+def Wire.setNet (w : Wire) (id n : Nat) : Wire := { w with a := w.a.setArch n, layer := id }
+
+/-- the constructor: actor `id` with `n` output parameters, `init_params`, hook registered -/
+def Wire.mk0 (sem : Sem) (lamb : Rat) (n id : Nat) : Wire :=
+  { a := Agent.mk0 sem lamb n, layer := id, exp := id, expN := n, hooked := true, next := id + 1 }
+
+def Wire.update (w : Wire) (g : Vec) : Wire := { w with a := w.a.update g }
+def Wire.learn (w : Wire) : Wire := w
+
+/-- `Mutations.mutation([agent])` having drawn kind `k`: arch / param / act hand back a network (output layer
+    `n'` parameters, a new object for all the model knows), rl_hp may assign `lamb := q`; whatever the kind the
+    hook runs afterwards.  (Each frame op consumes two identities.) -/
+def Wire.mutate (w : Wire) (k : Kind) (n' : Nat) (q : Option Rat) : Wire :=
+  let w1 : Wire :=
+    if k.setsNet then w.setNet w.next n'
+    else match k, q with
+      | .rlhp, some q => { w with a := w.a.setLamb q }
+      | _, _ => w
+  { w1.hook with next := w.next + 2 }
+
+/-- `clone()`: a new agent around clones of the networks, bound to ITS OWN output layer, carrying the parent's
+    `numel`, `sigma_inv` (and `lamb`, history) -/
+def Wire.clone (w : Wire) : Wire :=
+  { a := w.a.clone, layer := w.next, exp := w.next, expN := w.a.outNumel, hooked := w.hooked, next := w.next + 2 }
+
+/-- `target.load_checkpoint(path)` with `saved` in the file -/
+def Wire.loadFrom (target saved : Wire) : Wire :=
+  { a := target.a.loadFrom saved.a, layer := target.next, exp := target.next, expN := saved.a.outNumel,
+    hooked := target.hooked, next := target.next + 2 }
+
+/-- `save_checkpoint` + classmethod `load` -/
+def Wire.reload (w : Wire) : Wire :=
+  { a := w.a.reload, layer := w.next, exp := w.next, expN := w.a.outNumel, hooked := w.hooked, next := w.next + 2 }
+
+inductive WOp where
+  | update (g : Vec)
+  | learn
+  | mutate (k : Kind) (n' : Nat) (q : Option Rat)
+  | clone
+  | reload
+  | loadInto (target : Wire)      -- the current agent is saved, `target.load_checkpoint` continues
+deriving Repr, DecidableEq
+
+def Wire.step (w : Wire) : WOp → Wire
+  | .update g => w.update g
+  | .learn => w.learn
+  | .mutate k n' q => w.mutate k n' q
+  | .clone => w.clone
+  | .reload => w.reload
+  | .loadInto t => t.loadFrom w
+
+def Wire.run (w : Wire) (ops : List WOp) : Wire := ops.foldl Wire.step w
+
+/-- `exp_layer` is the output layer of the current actor, `numel` its parameter count -/
+def Wire.Bound (w : Wire) : Prop := w.exp = w.layer ∧ w.expN = w.a.outNumel ∧ w.a.numel = w.a.outNumel
+
+instance (w : Wire) : Decidable w.Bound := by unfold Wire.Bound; infer_instance
+
+end Bandit
